@@ -217,6 +217,8 @@ class Env:
                     "was_deleted": bool(i.was_deleted),
                     "expired": bool(i.expired),
                     "modified": bool(i.modified),
+                    # the primary-key attribute as it is loaded right now (no load is triggered)
+                    "loaded_pk": i.dict.get("id") if "id" in i.dict else None,
                     "key": None if i.key is None else i.key[1][0],
                     "token": None if i.key is None else i.key[2],
                     "sid": i.session_id is not None,
@@ -322,6 +324,8 @@ def project(rec, prop):
          session.new / session.deleted / identity map, lifecycle events
     c34: outcome (incl. returned instance), identity key + attachment flags, identity map,
          expired flag, whether SQL was emitted
+    c32: outcome, state flags + expired flag + identity key of every instance, session.new /
+         session.deleted / identity map, transaction stack, rows visible
     full: everything
     """
     if rec in ("abstain", "bad-oid") or prop == "full":
@@ -337,7 +341,7 @@ def project(rec, prop):
         o2 = ",".join(t[:5] + t[6] + t[8:] for t in toks) or "-"
         out = [res, o2, im, q]
     elif prop == "c32":
-        o2 = ",".join(t[:5] + t[8:] for t in toks) or "-"
+        o2 = ",".join(t[:5] + t[6] + t[8:] for t in toks) or "-"  # state flags, expired, identity key
         out = [res, o2, new, dele, im, tx, db]
     else:
         raise ValueError(prop)
